@@ -868,7 +868,7 @@ seeded("l2-identifier-before-multiline", ["C01"], "L2", [(P, '''        (b"multi
         (b"multiline", rb"text:[\\s\\S]*?\\n\\.\\r?$"),
         (b"string", rb'"([^"\\\\]|\\\\.)*"'),''')])
 seeded("l3-multiline-flag-dropped", ["C01"], "L3", [(P, "self.regexp = re.compile(self.regexpString, re.MULTILINE)", "self.regexp = re.compile(self.regexpString)")])
-seeded("l3-ignorecase-added", ["C01"], "L3", [(P, "self.regexp = re.compile(self.regexpString, re.MULTILINE)", "self.regexp = re.compile(self.regexpString, re.MULTILINE | re.DOTALL)")])
+seeded("l3-ignorecase-added", ["C01"], "L1", [(P, "self.regexp = re.compile(self.regexpString, re.MULTILINE)", "self.regexp = re.compile(self.regexpString, re.MULTILINE | re.DOTALL)")])
 seeded("l4-identifier-lowercase-only", ["C01"], "L4", [(P, '''(b"identifier", rb"[a-zA-Z_][\\w]*"),''', '''(b"identifier", rb"[a-z_][\\w]*"),''')])
 seeded("t1-matches-removed", ["C01"], "T1", [(C, '''    "values": [":is", ":contains", ":matches"],''', '''    "values": [":is", ":contains"],''')])
 seeded("t1-address-part-extra", ["C01"], "T1", [(C, '''    "values": [":localpart", ":domain", ":all"],''', '''    "values": [":localpart", ":domain", ":all", ":user"],''')])
